@@ -297,6 +297,7 @@ func checkC17(c *Ctx, r *Report) {
 	r.floor("C17.CASES", "(built-in field, serving type) pairs", nCases, 90)
 	c17Pure(c, r, resolveFns)
 	c17Total(c, r, resolveFns)
+	c17DeprReason(c, r, resolveFns)
 	importRules(c, r, "C16", "C17.EXTREFS", "the references an extension brings along are resolved before it is merged (C16.EXTREFS): the implicit schema object is in no table, so a root operation type added by `extend schema` and resolved only by a later table-wide pass stays a placeholder and __schema.mutationType describes a *Ref", "C16.EXTREFS")
 	c17Depr(c, r)
 	c17Null(c, r)
@@ -739,4 +740,73 @@ func provesNilArg(g guard, p *ssa.Parameter) bool {
 		}
 	}
 	return false
+}
+
+// c17DeprReason: deprecationReason is the `reason` argument of the @deprecated use - of that use, not of
+// whichever use follows it. Every lookup of the argument "reason" in a directive use's argument map, in the
+// Resolve methods of field definitions and enum values and the helpers they call, is dominated by the test
+// that the name of THAT use's directive is "deprecated" (a flag carried over from an earlier iteration of the
+// loop is not such a test).
+func c17DeprReason(c *Ctx, r *Report, resolveFns []*ssa.Function) {
+	r.rule("C17.DEPRREASON", "a lookup Args[\"reason\"] on a directive use is dominated by Directive.Name() == \"deprecated\" of the same use")
+	seen := map[*ssa.Function]bool{}
+	var fns []*ssa.Function
+	var add func(f *ssa.Function, d int)
+	add = func(f *ssa.Function, d int) {
+		if f == nil || seen[f] || !c.inPkg(f) {
+			return
+		}
+		seen[f] = true
+		fns = append(fns, f)
+		if d == 0 {
+			return
+		}
+		for _, ci := range callsIn(f) {
+			if cal := ci.Common().StaticCallee(); cal != nil {
+				add(cal, d-1)
+			}
+		}
+	}
+	for _, f := range resolveFns {
+		if rn := recvName(f); rn == "FieldDef" || rn == "EnumValue" {
+			add(f, 2)
+		}
+	}
+	n := 0
+	for _, fn := range fns {
+		k := 0
+		for _, b := range fn.Blocks {
+			for _, in := range b.Instrs {
+				lk, ok := in.(*ssa.Lookup)
+				if !ok {
+					continue
+				}
+				if s, isC := constStr(lk.Index); !isC || s != "reason" {
+					continue
+				}
+				base, o, f, isLd := loadOfField(lk.X)
+				if !isLd || o != "DirectiveUse" || f != "Args" {
+					continue
+				}
+				n++
+				k++
+				r.fnSeen(fnName(fn))
+				guarded := hasGuard(b, func(g guard) bool {
+					v, lit, eq, ok := strConstCmp(g.cond)
+					if !ok || lit != "deprecated" || eq != g.val {
+						return false
+					}
+					call, ok := v.(*ssa.Call)
+					if !ok || !call.Call.IsInvoke() || call.Call.Method.Name() != "Name" {
+						return false
+					}
+					b2, o2, f2, ok := loadOfField(call.Call.Value)
+					return ok && o2 == "DirectiveUse" && f2 == "Directive" && sameVal(b2, base)
+				})
+				r.check("C17.DEPRREASON", fmt.Sprintf("%s: reason lookup #%d is made on the @deprecated use itself", fnName(fn), k), lk.Pos(), guarded,
+					"the reason argument is read from a directive use that has not just been tested to be @deprecated: the reason of another directive written after @deprecated is reported as the deprecation reason")
+			}
+		}
+	}
+	r.floor("C17.DEPRREASON", "lookups of the reason argument", n, 1)
 }
